@@ -16,7 +16,8 @@ import itertools
 from . import lib
 from . import lex_common as L
 
-RULE = ("line breaks in all three forms (CR, CRLF, LF) in texts and raw bodies, judged against spec_trim of the skeleton "
+RULE = ("every third case also through Template(src, **options); one-tag skeletons also under line_statement_prefix / "
+        "line_comment_prefix configurations; line breaks in all three forms (CR, CRLF, LF) in texts and raw bodies, judged against spec_trim of the skeleton "
         "with unified breaks; skeletons = alternating texts and tags; texts from {'', ' ', LF, ' LF ', TAB, 'a', 'a LF', ' a'}; tags = block / "
         "comment (3x3 modifiers), variable (3x2), raw blocks (modifiers on both tags, body from the texts). Exhaustive: all "
         "one-tag skeletons x 4 trim/lstrip settings; two-tag skeletons subsampled (8 000 quick / 120 000 thorough of ~380 000 over the first 6 "
@@ -79,10 +80,24 @@ def real_render(jinja2, cfg, src):
         return "X:" + type(e).__name__
 
 
-def judge(jinja2, cfg, src, spec_v):
+def template_render(jinja2, cfg, src):
+    """the options given to the Template constructor directly (spontaneous environment)"""
+    try:
+        return "D " + jinja2.Template(src, **cfg.kwargs()).render()
+    except jinja2.TemplateSyntaxError as e:
+        return "ERR " + str(e)
+    except Exception as e:
+        return "X:" + type(e).__name__
+
+
+def judge(jinja2, cfg, src, spec_v, with_template=True):
     got = real_render(jinja2, cfg, src)
     if got != "D " + spec_v:
         return "render %r, documented rules give %r" % (got, spec_v)
+    if with_template:
+        got = template_render(jinja2, cfg, src)
+        if got != "D " + spec_v:
+            return "Template(src, **options) renders %r, documented rules give %r" % (got, spec_v)
     return None
 
 
@@ -95,6 +110,17 @@ def run(ctx):
         "whole-template refinement (spec_trim on skeletons of arbitrary length) is compared by the extracted run and Coq-checked only on the one-tag enumeration",
     ]
     ctx.proof("C12")
+    # the options reach the lexer in Environment.__init__'s order also through Template(...): regenerated facts
+    try:
+        from . import c13
+        tr = c13.load_translator()
+        ok, _ = ctx.coq_obligation("LexEnvFacts", tr.coq_text(tr.facts(lib.REPO)), n_obligations=4)
+        if ok:
+            ctx.case(sample={"T1": "spontaneous_env_args, lexer_cache_transparent, lexer_reads_are_model_fields, overlay_copies"}, key="T1")
+            ctx.validated()
+    except Exception as e:
+        ctx.obligations += 4
+        ctx.broken.append("T1 translator gen/lex_envfacts.py: %s: %s" % (type(e).__name__, e))
 
     settings = [(t, l) for t in (False, True) for l in (False, True)]
     # hypothesis probes (skel_wf excludes them): '+' where the syntax has no automatic trimming to disable.
@@ -118,6 +144,12 @@ def run(ctx):
         for g in tags1:
             for b in TEXTS:
                 sks.append(("default", skel([a, g, b])))
+    # the same one-tag skeletons in environments WITH line_statement_prefix / line_comment_prefix configured
+    # (the texts contain neither prefix): the sign / lstrip handling must not depend on the extra root rules
+    one_tag = [s for s in sks]
+    for name in ("line", "linepct"):
+        for _, k in ctx.rng.sample(one_tag, ctx.size(2500, 12000)):
+            sks.append((name, k))
     two = [(a, g1, b, g2, c) for a in TEXTS[:6] for g1 in tags2 for b in TEXTS[:6] for g2 in tags2 for c in TEXTS[:6]]
     two = ctx.rng.sample(two, ctx.size(8000, 120000))      # of ~380 k; the full product takes > 15 min
     for p in two:
@@ -129,7 +161,7 @@ def run(ctx):
             parts.append("".join(ctx.rng.choice([" ", " ", "\n", "\t", "a", "b\n", "\x0b", "\x0c"]) for _ in range(ctx.rng.randint(0, 4))))
             parts.append(ctx.rng.choice(tags1))
         parts.append("".join(ctx.rng.choice([" ", "\n", "\t", "a"]) for _ in range(ctx.rng.randint(0, 3))))
-        sks.append((ctx.rng.choice(["default", "default", "angle", "dollar", "asp"]), skel(parts)))
+        sks.append((ctx.rng.choice(["default", "default", "angle", "dollar", "asp", "line", "linepct"]), skel(parts)))
 
     cases = []
     for name, k in sks:
@@ -183,12 +215,15 @@ def run(ctx):
     cases = [(c, k) for c, k, _ in cases]
     rlines = ctx.driver("lex", ["R %s %s" % (c.enc(), L.enc_str(s[0])) for (c, k), s in zip(cases, srcs)])
     mruns = L.model_runs(ctx, [(c, s[0]) for (c, k), s in zip(cases, srcs)])
+    idx = 0
     for (c, k), (src, spec_v, spec_0), rl, m in zip(cases, srcs, rlines, mruns):
         case = {"cfg": c.describe(), "skeleton": k, "src": src}
         nontriv = any(ch in src for ch in " \n\t")
         ctx.case(sample=dict(case, spec=spec_v) if len(src) > 30 else None, key=(c.key(), k) if nontriv else None)
         ctx.count("tags_%d" % min(k.count("/") // 2 + (0 if k.count("/") % 2 == 0 else 1), 6))
-        w = judge(jinja2, c, src, spec_v)
+        idx += 1
+        # the Template(...) route for every third case and for every one-tag case with trim_blocks != lstrip_blocks
+        w = judge(jinja2, c, src, spec_v, with_template=(idx % 3 == 0 or (c.trim != c.lstrip and k.count("/") <= 2 and idx % 2 == 0)))
         if w:
             ctx.reject(case, w, "C12:%s:%s" % (k, c.key()))
             continue
